@@ -94,7 +94,7 @@ def theorems_of(prop_file):
     return re.findall(r"^\s*Theorem\s+(\w+)", text, re.M)
 
 
-def build_coq(prop):
+def build_coq(prop, tier="quick"):
     """returns (ok, info dict)."""
     info = {}
     with Lock("coq"):
@@ -137,6 +137,21 @@ def build_coq(prop):
     if rc != 0 or closed != len(ths) or "Axioms:" in out:
         info["coq_error"] = "Print Assumptions gate: " + out[-2000:]
         return False, info
+    if tier == "thorough":
+        # independent re-check of the compiled property file and everything it depends on
+        with Lock("coq"):
+            rc, out, dt = sh(["timeout", "1500", "coqchk", "-silent", "-o", "-Q", COQ, "CwPlus", mod], cwd=COQ)
+        flat = " ".join(out.split())
+        m = re.search(r"\* Axioms: (.*?) \* Constants/Inductives relying on type-in-type: (.*?) \* Constants/Inductives "
+                      r"relying on unsafe \(co\)fixpoints: (.*?) \* Inductives whose positivity is assumed: (.*?)$", flat)
+        info["coqchk"] = {"wall_s": round(dt, 1), "rc": rc,
+                          "axioms": m.group(1).strip() if m else None,
+                          "type_in_type": m.group(2).strip() if m else None,
+                          "unsafe_fixpoints": m.group(3).strip() if m else None,
+                          "assumed_positivity": m.group(4).strip() if m else None}
+        if rc != 0 or not m or any(m.group(k).strip() != "<none>" for k in (1, 2, 3, 4)):
+            info["coq_error"] = "coqchk gate: " + out[-2000:]
+            return False, info
     return True, info
 
 
@@ -228,7 +243,7 @@ def main():
     t0 = time.time()
     os.makedirs(os.path.join(VERIF, "replays"), exist_ok=True)
 
-    coq_ok, cinfo = build_coq(prop)
+    coq_ok, cinfo = build_coq(prop, tier)
     h_ok, h_out, h_dt = build_harness()
     nth = len(cinfo.get("theorems", theorems_of(prop["props_file"])))
     coverage = {
@@ -237,6 +252,7 @@ def main():
         "trusted_base": TRUSTED, "theorems": cinfo.get("theorems", []),
         "print_assumptions": cinfo.get("print_assumptions"), "params": cinfo.get("params"),
         "coq_build_s": cinfo.get("coq_build_s"), "harness_build_s": h_dt,
+        "coqchk": cinfo.get("coqchk"),
     }
     violation = None  # (replay_path, suffix)
 
